@@ -1245,6 +1245,12 @@ func (r *multiCIDRRangeAllocator) mapClusterCIDRSet(cidrMap map[string][]*cidrse
 	}
 
 	if clusterCIDRSetList, ok := cidrMap[nodeSelector]; ok {
+		// Mapping is idempotent: a retry after a failed API write must not add a second entry.
+		for _, existing := range clusterCIDRSetList {
+			if existing.Name == clusterCIDRSet.Name {
+				return nil
+			}
+		}
 		cidrMap[nodeSelector] = append(clusterCIDRSetList, clusterCIDRSet)
 	} else {
 		cidrMap[nodeSelector] = []*cidrset.ClusterCIDR{clusterCIDRSet}
